@@ -1256,6 +1256,10 @@ func protocolToNumber(protocol *proto.Protocol) uint8 {
 			pcol = 1
 		case "sctp":
 			pcol = 132
+		case "icmpv6":
+			pcol = 58
+		case "udplite":
+			pcol = 136
 		}
 	case *proto.Protocol_Number:
 		pcol = uint8(p.Number)
